@@ -49,25 +49,25 @@ class AtomicBase : public AtomicWait<T> {
     return CompareExchangeHelper(expected, desired);
   }
   bool compare_exchange_weak(T& expected, T desired, std::memory_order, std::memory_order) volatile noexcept {
-    return CompareExchangeHelper(expected, desired);
+    return const_cast<AtomicBase&>(*this).CompareExchangeHelper(expected, desired);
   }
   bool compare_exchange_weak(T& expected, T desired, std::memory_order) noexcept {
     return CompareExchangeHelper(expected, desired);
   }
   bool compare_exchange_weak(T& expected, T desired, std::memory_order) volatile noexcept {
-    return CompareExchangeHelper(expected, desired);
+    return const_cast<AtomicBase&>(*this).CompareExchangeHelper(expected, desired);
   }
   bool compare_exchange_strong(T& expected, T desired, std::memory_order, std::memory_order) noexcept {
     return CompareExchangeHelper(expected, desired);
   }
   bool compare_exchange_strong(T& expected, T desired, std::memory_order, std::memory_order) volatile noexcept {
-    return CompareExchangeHelper(expected, desired);
+    return const_cast<AtomicBase&>(*this).CompareExchangeHelper(expected, desired);
   }
   bool compare_exchange_strong(T& expected, T desired, std::memory_order) noexcept {
     return CompareExchangeHelper(expected, desired);
   }
   bool compare_exchange_strong(T& expected, T desired, std::memory_order) volatile noexcept {
-    return CompareExchangeHelper(expected, desired);
+    return const_cast<AtomicBase&>(*this).CompareExchangeHelper(expected, desired);
   }
 
  protected:
